@@ -5,9 +5,10 @@
    the dispersers and established-dispersers rasters of the pest pool and of every
    soil cohort, and is carried through every action of every step of every run as
    well (theorems C02_pest_and_soil_...).  Tie: bin/check C02. *)
-From Coq Require Import ZArith QArith List.
+From Coq Require Import ZArith QArith List Reals Qreals.
+From Flocq Require Import Core.
 From Pops Require Import Err Rounding RoundingProps CellDefs CellProps LandDefs MonadProps LandProps ShapeProps LandProps2
-     ModelDefs ModelProps RunProps PestProps PestRunProps.
+     ModelDefs ModelProps RunProps PestProps PestRunProps FloatBridge.
 Import ListNotations.
 Local Open Scope Z_scope.
 
@@ -94,6 +95,44 @@ Theorem C02_rounding_bounds : forall n r, 0 <= n -> (0 <= r <= 1)%Q ->
   0 <= ratio_removed n r <= n.
 Proof. exact ratio_removed_bounds. Qed.
 Print Assumptions C02_rounding_bounds.
+
+(* The model multiplies counts by ratios exactly (Q); the C++ does it in binary64.
+   fl is round-to-nearest-even to binary64 (FloatBridge.v, Flocq).  For ANY real ratio
+   in [0,1] and any count below 2^53 the floor / ceil / lround / cast of the binary64
+   product is still between 0 and the count, so the bounds above do not depend on the
+   arithmetic being exact ... *)
+Theorem C02_binary64_bounds : forall (n : Z) (r : R),
+  (0 <= n < 2^53)%Z -> (0 <= r <= 1)%R -> int_results_within (fl (IZR n * fl r)) n.
+Proof. exact fl_count_flratio_int_bounds. Qed.
+Print Assumptions C02_binary64_bounds.
+
+(* ... on dyadic ratios (what the correspondence check generates) binary64 and Q agree
+   exactly, including every rounding the cell functions use ... *)
+Theorem C02_binary64_agrees_on_dyadic : forall (n : Z) (q : Q) (e : Z),
+  (0 <= e <= 1074)%Z -> Z.pos (Qden q) = (2^e)%Z -> (Z.abs (n * Qnum q) < 2^53)%Z ->
+  let x := fl (IZR n * fl (Q2R q)) in
+  x = Q2R (zq n * q) /\
+  Zceil x = qceil (zq n * q) /\
+  Zfloor x = qfloor (zq n * q) /\
+  lround x = qlround (zq n * q) /\
+  (n - lround x)%Z = ratio_removed n q /\
+  Zceil x = qceil (get_treated Ratio q n) /\
+  Zfloor x = qfloor (get_treated Ratio q n).
+Proof. exact double_agrees_with_Q_on_dyadic. Qed.
+Print Assumptions C02_binary64_agrees_on_dyadic.
+
+(* ... and for other ratios the rounded counts themselves can differ by one from the exact
+   ones (7/100 of 100 hosts: ceil 8 in binary64, 7 exactly), which is why the tie uses
+   dyadic parameters and the theorems are statements about exact arithmetic *)
+Theorem C02_binary64_differs_refuted :
+  (exists n q, (0 <= n < 2^53)%Z /\ (0 <= q <= 1)%Q /\
+     Zceil (fl (IZR n * fl (Q2R q))) <> qceil (zq n * q)) /\
+  (exists n q, (0 <= n < 2^53)%Z /\ (0 <= q <= 1)%Q /\
+     lround (fl (IZR n * fl (Q2R q))) <> qlround (zq n * q)) /\
+  (exists n q, (0 <= n < 2^53)%Z /\ (0 <= q <= 1)%Q /\
+     Zfloor (fl (IZR n * fl (Q2R q))) <> qfloor (zq n * q)).
+Proof. exact double_differs_from_Q_refuted. Qed.
+Print Assumptions C02_binary64_differs_refuted.
 
 Example C02_nonvacuous : J Eq 17 2 2 demo_world.
 Proof. exact demo_world_J. Qed.
